@@ -15,7 +15,7 @@ def run_mc(wd, tier):
     copy_specs(wd, ["AwaitCache.tla", "AwaitCacheMC.tla"])
     cfg = os.path.join(wd, "mc.cfg")
     const = {"Hash": '{"h1","h2","h3"}', "Addr": '{"A","B"}', "Iss": "<- MCIss", "Rcv": "<- MCRcv",
-             "Slots": "{1,2}" if tier == "quick" else "{1,2,3}", "MaxOps": "4" if tier == "quick" else "5", "ExpiryOn": "TRUE"}
+             "Slots": "{1,2}" if tier == "quick" else "{1,2,3}", "MaxOps": "4" if tier == "quick" else "5", "ExpiryOn": "FALSE"}
     const.update(CODE_MODEL)
     write_cfg(cfg, "Spec", const, ["TypeOK", "C17_ListsExact"], ["C17_OnlyReceiverRemoves"], view="View")
     p = subprocess.run(["java", "-XX:+UseParallelGC", "-cp", TLC_CP, "tlc2.TLC", "-workers", str(max(2, NCPU // 2)), "-metadir",
